@@ -22,6 +22,7 @@ import NxsModel.Describe
 import NxsModel.Spec.Wire
 import NxsModel.Lemmas.Serial
 import NxsModel.Lemmas.Info
+import NxsModel.Lemmas.R7Info
 namespace Nxs.C06
 open Nxs Nxs.Spec Nxs.Info
 
@@ -182,5 +183,153 @@ example : Describe.CfgOk ⟨0xe7, 9, [⟨true, 0x8a, 3, 200, 1, [0xc3, 0xa9]⟩,
 example : Describe.connectDescribe ⟨0xe7, 9, [⟨true, 0x8a, 3, 200, 1, [0xc3, 0xa9]⟩]⟩
     = (.connected 1 0xe7 9, .ok ⟨1, 0xe7, 9, true, true, [⟨0, ⟨true, 0x8a, 3, 200, 1, [0xc3, 0xa9]⟩⟩]⟩) := by
   decide +kernel
+
+/-! ## Round 7 additions
+
+  * `chinfo_any_frame_bounded`, `cmninfo_any_frame_bounded` — whatever frame a device sends (ANY id, ANY payload,
+    lawful or not): if the client's decoder accepts it, every numeric field of the description is 0..255, the name
+    is well-formed UTF-8 without NUL and shorter than the payload, and the frame has the right id and minimum size;
+  * `description_determines_configuration` — the configuration → description map of `connect()` is injective on
+    the property's quantifier: two different configurations never look alike to the client;
+  * `chinfo_response_injective`, `ack_codes_distinct` — the same for single responses: two lawful channel-info
+    responses decoding alike carry the same configuration; two return codes are never confused;
+  * `description_forgets_before_last_cmninfo` — the collecting discipline of `_devinfo_get` (section 5: "late or
+    repeated common-info answer … K/O only"): whatever requests were answered before the last common-info
+    exchange (an earlier common info, part of the channel list, a channel asked twice, channels the device does
+    not have), the description built is the configuration;
+  * `description_needs_every_channel_once` — (sharpness) asking a channel twice is NOT harmless: `Device.__init__`
+    refuses the collection (`assert len(channels) == chmax`). -/
+
+/-- round 7: **bounds on everything the client can ever learn about a channel** — for ANY frame (any id, any
+    payload, from any device): if `frame_chinfo_decode` returns a description, the frame is a CHINFO frame of at
+    least 5 bytes, type / dimension / divider / metadata length are 0..255, and the name is well-formed UTF-8,
+    NUL-free and at most payload − 5 bytes -/
+theorem chinfo_any_frame_bounded (fr : Serial.Frame) (ci : ChanInfo) (h : chinfoDecode fr = .ok (some ci)) :
+    fr.fid = 3 ∧ 5 ≤ fr.data.length ∧ ci.type ≤ 255 ∧ ci.vdim ≤ 255 ∧ ci.div ≤ 255 ∧ ci.mlen ≤ 255 ∧
+    validUtf8 ci.name = true ∧ (∀ b ∈ ci.name, b ≠ 0) ∧ ci.name.length + 5 ≤ fr.data.length ∧
+    dtypeOf ci.type ≤ 31 := by
+  obtain ⟨a, b, c, d, e, s, rfl, hv, rfl⟩ := Info.chinfoDecode_some_shape fr ci h
+  obtain ⟨h1, h2, h3⟩ := Info.cstr_props s hv
+  have hb := b.isLt; have hc := c.isLt; have hd := d.isLt; have he := e.isLt
+  refine ⟨rfl, by simp, by simp only; omega, by simp only; omega, by simp only; omega, by simp only; omega,
+    h1, h2, by simp; omega, ?_⟩
+  rw [(Info.type_derived_lt b.toNat hb).1]; omega
+
+/-- round 7: the same for the device-level description: channel count, flags and rx padding are 0..255 whatever
+    the device sent -/
+theorem cmninfo_any_frame_bounded (fr : Serial.Frame) (chmax flags rxp : Nat)
+    (h : cmninfoDecode fr = .ok (some (chmax, flags, rxp))) :
+    fr.fid = 2 ∧ 3 ≤ fr.data.length ∧ chmax ≤ 255 ∧ flags ≤ 255 ∧ rxp ≤ 255 := by
+  obtain ⟨a, b, c, rest, rfl, ht⟩ := Info.cmninfoDecode_some_shape fr _ h
+  simp only [Prod.mk.injEq] at ht
+  obtain ⟨rfl, rfl, rfl⟩ := ht
+  have ha := a.isLt; have hb := b.isLt; have hc := c.isLt
+  exact ⟨rfl, by simp, by omega, by omega, by omega⟩
+
+example : chinfoDecode ⟨3, [7, 0xff, 0xff, 0xff, 0xff, 0x61, 0x00, 0x62]⟩ = .ok (some ⟨true, 255, 255, 255, 255, [0x61]⟩) := by
+  decide +kernel
+
+open Nxs.Describe Nxs.Handshake in
+/-- round 7: **the description determines the configuration.**  Two configurations within the quantifier whose
+    `connect()` leaves the client with the same description are the same configuration (channel count, flags, rx
+    padding, and per channel enable state, type byte, dimension, divider, metadata length and name) -/
+theorem description_determines_configuration (c1 c2 : DevCfg) (h1 : CfgOk c1) (h2 : CfgOk c2)
+    (h : (connectDescribe c1).2 = (connectDescribe c2).2) : c1 = c2 := by
+  have e1 : (connectDescribe c1).2 = describe c1 (connect c1.desc [] .ok).sent := rfl
+  have e2 : (connectDescribe c2).2 = describe c2 (connect c2.desc [] .ok).sent := rfl
+  rw [e1, e2, (connect_allOk c1.desc [] (by simp)).2, (connect_allOk c2.desc [] (by simp)).2,
+    describe_requests c1 h1 0, describe_requests c2 h2 0] at h
+  have h' := Except.ok.inj h
+  simp only [ClientDev.mk.injEq] at h'
+  obtain ⟨_, hf, hr, _, _, hc⟩ := h'
+  have hch := clientView_inj c1.chans c2.chans 0 h1.chans h2.chans hc
+  obtain ⟨f1, r1, ch1⟩ := c1
+  obtain ⟨f2, r2, ch2⟩ := c2
+  simp only at hf hr hch
+  subst hf hr hch
+  rfl
+
+/-- round 7: two lawful channel-info responses (as the device-side encoder emits them) that the client reads alike
+    carry the same configuration -/
+theorem chinfo_response_injective (a b : ChanCfg) (ha : Describe.ChanOk a) (hb : Describe.ChanOk b)
+    (h : ((chinfoEncode a).bind Serial.frameDecode).bind chinfoDecode
+      = ((chinfoEncode b).bind Serial.frameDecode).bind chinfoDecode) : a = b := by
+  rw [Describe.chan_encode_decode a ha, Describe.chan_encode_decode b hb] at h
+  exact Describe.toInfo_inj a b ha hb (Option.some.inj (Except.ok.inj h))
+
+/-- round 7: two different 32-bit return codes are never read alike -/
+theorem ack_codes_distinct (r r' : Int) (hlo : -2147483648 ≤ r) (hhi : r ≤ 2147483647)
+    (hlo' : -2147483648 ≤ r') (hhi' : r' ≤ 2147483647)
+    (h : (Serial.frameDecode (wire 4 (i32le r))).bind ackDecode
+      = (Serial.frameDecode (wire 4 (i32le r'))).bind ackDecode) : r = r' := by
+  rw [(ack_rt r hlo hhi).2, (ack_rt r' hlo' hhi').2] at h
+  have h' := Option.some.inj (Except.ok.inj h)
+  by_cases h0 : r = 0 <;> by_cases h0' : r' = 0
+  · rw [h0, h0']
+  · rw [if_pos h0, if_neg h0'] at h'; cases h'
+  · rw [if_neg h0, if_pos h0'] at h'; cases h'
+  · rw [if_neg h0, if_neg h0'] at h'; exact (Prod.mk.inj h').2
+
+open Nxs.Describe Nxs.Handshake in
+/-- round 7: **whatever was collected before the last common-info exchange is forgotten.**  For every
+    configuration within the quantifier and ANY list `pre` of earlier requests answered by the device (a first
+    common-info exchange whose answer came late, part of the channel list, channels asked twice, channels the
+    device does not have, …) followed by the requests of one complete `_devinfo_get` pass: no decoder raises
+    and the description is exactly the configuration -/
+theorem description_forgets_before_last_cmninfo (cfg : DevCfg) (h : CfgOk cfg) (pre : List Req) (padding : Nat) :
+    describe cfg (pre ++ infoRequests cfg.desc padding)
+      = .ok ⟨cfg.chans.length, cfg.flags, cfg.rxpadding, cfg.flags.testBit 0, cfg.flags.testBit 1,
+          (cfg.chans.zipIdx 0).map fun p => ⟨p.2, toInfo p.1⟩⟩ := by
+  have e := describe_requests cfg h padding
+  rw [(Info.flags_derived cfg.flags).1, (Info.flags_derived cfg.flags).2, clientView_eq_zipIdx] at e
+  rw [← e]
+  unfold describe
+  obtain ⟨st', hst⟩ := absorbAll_total cfg h pre {}
+  rw [absorbAll_append, hst, ok_bind, absorbAll_append, show absorbAll cfg {} [Req.stop] = .ok {} from rfl, ok_bind,
+    absorbAll_info_reset cfg h padding st' {}]
+
+open Nxs.Describe Nxs.Handshake in
+/-- a first pass cut short (common info + channel 0), then a complete pass -/
+example : describe ⟨3, 0, [⟨true, 0x8a, 3, 200, 1, [0x61]⟩, ⟨false, 2, 1, 0, 0, []⟩]⟩
+    [.stop, .cmninfo, .chinfo 0, .cmninfo, .chinfo 0, .chinfo 1]
+    = .ok ⟨2, 3, 0, true, true, [⟨0, ⟨true, 0x8a, 3, 200, 1, [0x61]⟩⟩, ⟨1, ⟨false, 2, 1, 0, 0, []⟩⟩]⟩ := by
+  decide +kernel
+
+open Nxs.Describe Nxs.Handshake in
+/-- round 7 (sharpness of the above): AFTER the last common-info exchange every channel must be read exactly once —
+    if a channel answer is read twice (`k` extra reads of channel 0 of a device that has one), `Device.__init__`
+    refuses the collection -/
+theorem description_needs_every_channel_once (cfg : DevCfg) (h : CfgOk cfg) (ch : ChanCfg) (rest : List ChanCfg)
+    (hc : cfg.chans = ch :: rest) (padding : Nat) :
+    describe cfg (infoRequests cfg.desc padding ++ [.chinfo 0]) = .error .assertion := by
+  have e := describe_requests cfg h padding
+  unfold describe at e ⊢
+  rw [absorbAll_append, show absorbAll cfg {} [Req.stop] = .ok {} from rfl, ok_bind] at e
+  rw [absorbAll_append]
+  cases hx : absorbAll cfg {} (infoRequests cfg.desc padding) with
+  | error er => rw [hx] at e; cases e
+  | ok st =>
+    rw [hx, ok_bind] at e
+    rw [ok_bind]
+    have hi : cfg.chans[0]? = some ch := by rw [hc]; rfl
+    have hst : st.cmn = some (cfg.chans.length, cfg.flags, cfg.rxpadding) ∧ st.chans.length = cfg.chans.length := by
+      unfold mkDevice at e
+      cases hcm : st.cmn with
+      | none => rw [hcm] at e; cases e
+      | some t =>
+        obtain ⟨n, fl, rxp⟩ := t
+        rw [hcm] at e
+        simp only at e
+        by_cases hl : st.chans.length = n
+        · rw [if_pos hl] at e
+          have := Except.ok.inj e
+          simp only [ClientDev.mk.injEq] at this
+          obtain ⟨rfl, rfl, rfl, _, _, _⟩ := this
+          exact ⟨rfl, hl⟩
+        · rw [if_neg hl] at e; cases e
+    simp only [absorbAll, absorb_chinfo cfg st 0 ch hi (h.chans ch (by rw [hc]; simp)), ok_bind]
+    unfold mkDevice
+    simp only [hst.1]
+    rw [if_neg (by simp [hst.2])]
 
 end Nxs.C06
